@@ -787,3 +787,110 @@ Proof.
   - intros ct' lt' _ N'. rewrite Nat.sub_0_r in *. rewrite N in N'. injection N' as <- <-.
     split; [exact I|]. destruct L34 as [->| ->]; lia.
 Qed.
+
+(* ================= group readers return the members' values ================= *)
+Lemma sty_eqb_eq a b : sty_eqb a b = true -> a = b.
+Proof. destruct a, b; try discriminate; reflexivity. Qed.
+
+Lemma all_some_map_Forall2 {A B} (f : A -> option B) : forall l os,
+  all_some (map f l) = Some os -> Forall2 (fun a o => f a = Some o) l os.
+Proof.
+  induction l as [|a l IH]; intros os E.
+  - injection E as <-. constructor.
+  - cbn [map all_some] in E. destruct (f a) as [o|] eqn:Fa; [|discriminate].
+    destruct (all_some (map f l)) as [os'|] eqn:El; [|discriminate].
+    cbn [option_map] in E. injection E as <-. constructor; [exact Fa|apply IH; reflexivity].
+Qed.
+
+Lemma vec_reader_inv bin attr ms ps b : vec_reader bin attr ms ps = Some b ->
+  b_v1 b = false /\ b_attr b = attr /\ b_names b = ms /\
+  Forall2 (fun m o => member_off bin ps (b_ty b) m = Some o) ms (b_offs b).
+Proof.
+  unfold vec_reader. destruct (first_ty ms ps) as [t|]; [|discriminate].
+  destruct (all_some (map (member_off bin ps t) ms)) as [os|] eqn:E; [|discriminate].
+  cbn [option_map]. intros H. injection H as <-. cbn [b_v1 b_attr b_names b_offs b_ty].
+  repeat split. apply all_some_map_Forall2, E.
+Qed.
+
+Lemma member_off_offsets bin ps t m o : member_off bin ps t m = Some o -> offsets bin ps m = Some (o, t).
+Proof.
+  unfold member_off. destruct (offsets bin ps m) as [[c t']|]; [|discriminate].
+  destruct (sty_eqb t t') eqn:E; [|discriminate]. apply sty_eqb_eq in E. subst. intros H. injection H as <-. reflexivity.
+Qed.
+
+(* binary: the group reader returns, for record vals, the float64 images of its members' words, in member order *)
+Theorem group_reads_members_bin_proof : forall e attr ms (ps : vprops) vals b,
+  vec_reader true attr ms ps = Some b -> record_ok ps vals ->
+  read_bin_row e b (enc_record_bin e (map fst ps) vals) =
+  (if vertex_ty_ok (b_ty b) then mapR (member_value ps vals (b_ty b)) ms else Err EDeclared).
+Proof.
+  intros e attr ms ps vals b V R. destruct (vec_reader_inv _ _ _ _ _ V) as [_ [_ [_ F2]]].
+  unfold read_bin_row. destruct (vertex_ty_ok (b_ty b)); [|reflexivity]. clear V.
+  induction F2 as [|m o ms os Hm F2 IH]; [reflexivity|].
+  rewrite !mapR_cons, IH.
+  apply member_off_offsets in Hm.
+  destruct (layout_bin_aux e m ps vals [] o (b_ty b) R Hm) as [w [Fw G]]. cbn [app] in G.
+  rewrite G. cbn [of_opt rbind].
+  replace (member_value ps vals (b_ty b) m) with (conv (b_ty b) w) by (unfold member_value, mesh_value; rewrite Fw; reflexivity).
+  reflexivity.
+Qed.
+
+(* every byte value survives float64 -> integer recognition: the ascii path divides the same byte by 255 *)
+Lemma small_nat_all : forallb (fun w => match f64_small_nat (cvI (Z.of_N w)) with Some b => b =? w | None => false end)
+                              (map N.of_nat (seq 0 256)) = true.
+Proof. vm_compute. reflexivity. Qed.
+Lemma f64_small_nat_byte w : w < 256 -> f64_small_nat (cvI (Z.of_N w)) = Some w.
+Proof.
+  intros H. pose proof small_nat_all as A. rewrite forallb_forall in A.
+  specialize (A w). assert (I : In w (map N.of_nat (seq 0 256))).
+  { apply in_map_iff. exists (N.to_nat w). split; [apply N2Nat.id|]. apply in_seq. lia. }
+  specialize (A I). destruct (f64_small_nat (cvI (Z.of_N w))) as [b|]; [|discriminate].
+  apply N.eqb_eq in A. subst. reflexivity.
+Qed.
+Lemma div255_byte_tok w : w < 256 -> div255 (cvI (Z.of_N w)) = div255_byte w.
+Proof. intros H. unfold div255. rewrite (f64_small_nat_byte w H). reflexivity. Qed.
+
+Lemma rbind_ok_id {A} (r : result A) : rbind r (fun x => Ok x) = r.
+Proof. destruct r; reflexivity. Qed.
+
+(* ascii: the same values, including colour bytes (divided by 255 exactly as in binary files) *)
+Theorem group_reads_members_ascii_proof : forall attr ms (ps : vprops) vals b,
+  vec_reader false attr ms ps = Some b -> record_ok ps vals -> vertex_ty_ok (b_ty b) = true ->
+  read_ascii_row b (enc_record_ascii (map fst ps) vals) = mapR (member_value ps vals (b_ty b)) ms.
+Proof.
+  intros attr ms ps vals b V R S. destruct (vec_reader_inv _ _ _ _ _ V) as [V1 [_ [_ F2]]].
+  unfold read_ascii_row. rewrite V1. cbn [negb andb]. clear V V1.
+  assert (L : length vals = length ps) by (apply record_ok_length, R).
+  (* the raw tokens *)
+  assert (T : forall m o, member_off false ps (b_ty b) m = Some o ->
+            exists w, field_word ps vals m = Some (b_ty b, w) /\ word_fits (b_ty b) w /\
+                      nth_error (enc_record_ascii (map fst ps) vals) o = Some (tok_of_word (b_ty b) w)).
+  { intros m o Hm. apply member_off_offsets in Hm.
+    destruct (layout_ascii_aux m ps vals [] o (b_ty b) L Hm) as [w [Fw G]]. cbn [app] in G.
+    exists w. split; [exact Fw|]. split; [|exact G].
+    clear - R Fw. induction R as [|[t n] w0 ps ws Hw R IH]; [discriminate|].
+    cbn [field_word] in Fw. destruct (seqb n m); [injection Fw as <- <-; exact Hw|apply IH, Fw]. }
+  destruct (b_ty b) eqn:Ty; try discriminate S; cbn [sty_eqb].
+  - (* uchar: values then division *)
+    assert (M : mapR (fun off => dor t <- of_opt ECrash (nth_error (enc_record_ascii (map fst ps) vals) off); of_opt EDeclared (tok_f64 t)) (b_offs b)
+                = Ok (map (fun m => match field_word ps vals m with Some (_, w) => cvI (Z.of_N w) | None => 0 end) ms)
+                /\ Forall (fun m => exists w, field_word ps vals m = Some (UChar, w) /\ w < 256) ms).
+    { induction F2 as [|m o ms os Hm F2 IH]; [split; [reflexivity|constructor]|].
+      destruct (T m o Hm) as [w [Fw [Hf G]]]. destruct IH as [IH1 IH2].
+      rewrite mapR_cons, G. cbn [of_opt rbind tok_of_word tok_f64]. rewrite IH1. cbn [rbind map]. rewrite Fw.
+      split; [reflexivity|]. constructor; [|exact IH2]. exists w. split; [exact Fw|]. eapply fits1; [|exact Hf]. reflexivity. }
+    destruct M as [M1 M2]. rewrite M1. cbn [rbind]. rewrite mapR_map.
+    clear - M2. induction M2 as [|m ms [w [Fw Hw]] M2 IH]; [reflexivity|].
+    rewrite !mapR_cons, IH.
+    replace (member_value ps vals UChar m) with (div255_byte w) by (unfold member_value, mesh_value; rewrite Fw; reflexivity).
+    rewrite Fw, (div255_byte_tok w Hw). reflexivity.
+  - rewrite rbind_ok_id. induction F2 as [|m o ms os Hm F2 IH]; [reflexivity|].
+    destruct (T m o Hm) as [w [Fw [_ G]]]. rewrite !mapR_cons, G, IH.
+    replace (member_value ps vals Int m) with (mesh_value Int w) by (unfold member_value; rewrite Fw; reflexivity). reflexivity.
+  - rewrite rbind_ok_id. induction F2 as [|m o ms os Hm F2 IH]; [reflexivity|].
+    destruct (T m o Hm) as [w [Fw [_ G]]]. rewrite !mapR_cons, G, IH.
+    replace (member_value ps vals Float m) with (mesh_value Float w) by (unfold member_value; rewrite Fw; reflexivity). reflexivity.
+  - rewrite rbind_ok_id. induction F2 as [|m o ms os Hm F2 IH]; [reflexivity|].
+    destruct (T m o Hm) as [w [Fw [_ G]]]. rewrite !mapR_cons, G, IH.
+    replace (member_value ps vals Double m) with (mesh_value Double w) by (unfold member_value; rewrite Fw; reflexivity). reflexivity.
+Qed.
